@@ -1376,18 +1376,15 @@ inductive Result
 
 def globalPrefix : List UInt8 := bs%"_GLOBAL__sub_I_"
 
-/-- `demangle_simple(str)` (DEMANGLE_SIMPLE mode of `demangle()`), `s` = the bytes of
-    `str` up to (not including) the NUL. -/
-def demangleWith (fx : Fixes) (fuel : Nat) (s : Array UInt8) : Result :=
-  let l := s.toList
-  let hasPrefix := globalPrefix.isPrefixOf l
-  let body := if hasPrefix then s.extract 15 s.size else s
+/-- the parser part of `demangle_simple`: `orig` = the whole input (returned on any failure),
+    `body` = the input after the optional `_GLOBAL__sub_I_` -/
+def demangleCore (fx : Fixes) (fuel : Nat) (orig : List UInt8) (hasPrefix : Bool) (body : Array UInt8) : Result :=
   -- `dd.old[0] != '_' || dd.old[1] != 'Z'`: index 1 is only read when old[0] == '_'
-  if !(body.getD 0 0 == ch%'_' && body.getD 1 0 == ch%'Z') then .str l
+  if !(body.getD 0 0 == ch%'_' && body.getD 1 0 == ch%'Z') then .str orig
   else
     let env : Env := { s := body, fx := fx }
     let st0 : St := { pos := 0, len := body.size }
-    let fallback := Result.str l
+    let fallback := Result.str orig
     match run fuel .encoding env st0 with
     | .fuel => .outOfFuel
     | .crash k => .crash k
@@ -1408,8 +1405,15 @@ def demangleWith (fx : Fixes) (fuel : Nat) (s : Array UInt8) : Result :=
           | .crash k => .crash k
           | .ok r2 st2 => if r2 < 0 then fallback else fin st2
 
+/-- `demangle_simple(str)` (DEMANGLE_SIMPLE mode of `demangle()`), `s` = the bytes of
+    `str` up to (not including) the NUL. -/
+def demangleWith (fx : Fixes) (fuel : Nat) (s : Array UInt8) : Result :=
+  let l := s.toList
+  let hasPrefix := globalPrefix.isPrefixOf l
+  demangleCore fx fuel l hasPrefix (if hasPrefix then s.extract 15 s.size else s)
+
 /-- fuel that is always enough (see `c13_fuel_suffices`) -/
-def fuelFor (s : Array UInt8) : Nat := 40 * (s.size + 2)
+def fuelFor (s : Array UInt8) : Nat := 8 * (s.size + 2)
 
 def demangle (fx : Fixes) (s : Array UInt8) : Result := demangleWith fx (fuelFor s) s
 
